@@ -1,6 +1,6 @@
 ---------------------------- MODULE Conf_Cast6 -----------------------------
 EXTENDS Cast6, Json, IOUtils
-VARIABLES l, inst
+VARIABLES tpos, inst
 Rec == ndJsonDeserialize(IOEnv.TRACE)
 OSched(t, k, x) == Cast6Sched(t, k, x)
 OEnc(ks, b) == Cast6Enc(ks, b)
